@@ -127,6 +127,20 @@ func check18u(c *c18Case, n int) string {
 	if c.Dist == "const" {
 		return ""
 	}
+	// positions are independent: within one large tensor (continuous distribution) values do not repeat
+	if per >= 4096 {
+		seen := make(map[float64]int, per)
+		dup := 0
+		for _, v := range first {
+			seen[v]++
+			if seen[v] > 1 {
+				dup++
+			}
+		}
+		if dup > per/200 {
+			return fmt.Sprintf("%d of the %d elements of one tensor repeat an earlier element of the same tensor: positions are not independent draws", dup, per)
+		}
+	}
 	// fresh draws on every call: two calls share no value at the same position (continuous distributions)
 	same := 0
 	for i := range first {
